@@ -236,3 +236,392 @@ Proof.
 Qed.
 
 End Concat.
+
+(* every position below the total falls into exactly one piece (coverage of the element equation) *)
+Lemma sum_split : forall ns x, x < list_sum ns ->
+  exists j x', j < length ns /\ x' < nth j ns 0 /\ x = list_sum (firstn j ns) + x'.
+Proof.
+  induction ns as [|n ns IH]; intros x Hx; cbn [list_sum fold_right] in Hx; [lia|].
+  destruct (Nat.lt_ge_cases x n) as [Hlt|Hge].
+  - exists 0, x. cbn. repeat split; lia.
+  - destruct (IH (x - n)) as (j & x' & Hj & Hx' & E); [fold (list_sum ns) in Hx; lia|].
+    exists (S j), x'. cbn [length nth firstn list_sum fold_right]. fold (list_sum (firstn j ns)).
+    repeat split; lia.
+Qed.
+
+(* ---------- the validator ---------- *)
+Definition offOk (dim : Z) (b0 : nat) (ds base : list nat) : bool :=
+  forallb (fun p : Z * (Z * Z) => let '(j, (d, b)) := p in (j =? dim)%Z || (d =? b)%Z)
+          (combine (map Z.of_nat (seq b0 (length ds))) (combine (map Z.of_nat ds) (map Z.of_nat base))).
+
+Lemma offOk_cons dim b0 d ds b base :
+  offOk dim b0 (d :: ds) (b :: base)
+  = ((Z.of_nat b0 =? dim)%Z || (Z.of_nat d =? Z.of_nat b)%Z) && offOk dim (S b0) ds base.
+Proof. reflexivity. Qed.
+
+Lemma offOk_refl dim : forall ds b0, offOk dim b0 ds ds = true.
+Proof.
+  induction ds as [|d ds IH]; intros b0; [reflexivity|].
+  rewrite offOk_cons, IH, Z.eqb_refl, orb_true_r. reflexivity.
+Qed.
+
+Lemma offOk_eq dim : forall ds base b0, length ds = length base -> (dim < Z.of_nat b0)%Z ->
+  offOk dim b0 ds base = true -> ds = base.
+Proof.
+  induction ds as [|d ds IH]; intros [|b base] b0 Hl Hb H; cbn in Hl; try lia; [reflexivity|].
+  rewrite offOk_cons in H. apply andb_true_iff in H as [H1 H2].
+  apply orb_true_iff in H1 as [H1|H1]; [apply Z.eqb_eq in H1; lia|].
+  apply Z.eqb_eq in H1. f_equal; [lia|]. apply (IH base (S b0)); [lia|lia|exact H2].
+Qed.
+
+(* shapes that differ at most at position [length pre] pass *)
+Lemma offOk_app dim post n m : forall pre b0, dim = Z.of_nat (b0 + length pre) ->
+  offOk dim b0 (pre ++ n :: post) (pre ++ m :: post) = true.
+Proof.
+  induction pre as [|a pre IH]; intros b0 Hd; cbn [app].
+  - rewrite offOk_cons, offOk_refl. cbn [length] in Hd. rewrite Nat.add_0_r in Hd. subst dim.
+    rewrite Z.eqb_refl. reflexivity.
+  - rewrite offOk_cons, Z.eqb_refl, orb_true_r. cbn [andb]. apply IH. cbn [length] in Hd. lia.
+Qed.
+
+(* and conversely *)
+Lemma offOk_inv dim : forall j ds base b0, length ds = length base -> j < length ds ->
+  dim = Z.of_nat (b0 + j) -> offOk dim b0 ds base = true ->
+  ds = firstn j base ++ nth j ds 0 :: skipn (S j) base.
+Proof.
+  induction j as [|j IH]; intros [|d ds] [|b base] b0 Hl Hj Hd H; cbn in Hl, Hj; try lia.
+  - rewrite offOk_cons in H. apply andb_true_iff in H as [_ H2].
+    cbn [firstn nth skipn app]. f_equal. apply (offOk_eq dim ds base (S b0)); [lia|lia|exact H2].
+  - rewrite offOk_cons in H. apply andb_true_iff in H as [H1 H2].
+    apply orb_true_iff in H1 as [H1|H1]; [apply Z.eqb_eq in H1; lia|]. apply Z.eqb_eq in H1.
+    cbn [firstn nth skipn app]. f_equal; [lia|]. apply (IH ds base (S b0)); [lia|lia|lia|exact H2].
+Qed.
+
+Section ApiConcat.
+Context {A : Type} {SA : Scalar A}.
+Notation T := (tensor A).
+
+(* the precondition of validateConcatTensorsDimsAlongDim: all operands have the same rank >= 1,
+   0 <= dim < rank, and their shapes agree except at position dim *)
+Definition concatPre (ts : list T) (dim : Z) : Prop :=
+  exists pre post ns, dim = Z.of_nat (length pre) /\ Forall2 (fun t n => dims t = pre ++ n :: post) ts ns.
+
+Lemma concatDimsOk_unfold (base : list nat) dim (t : T) rest :
+  concatDimsOk (map Z.of_nat base) dim (zdims t :: rest)
+  = negb (length (dims t) =? 0) && (length (dims t) =? length base)
+    && ((0 <=? dim)%Z && (dim <? Z.of_nat (length base))%Z)
+    && offOk dim 0 (dims t) base
+    && concatDimsOk (map Z.of_nat base) dim rest.
+Proof.
+  cbn [concatDimsOk]. unfold zdims, zlen, offOk. rewrite !map_length. reflexivity.
+Qed.
+
+Lemma concatDimsOk_complete pre post n0 dim : dim = Z.of_nat (length pre) ->
+  forall (ts : list T) ns, Forall2 (fun t n => dims t = pre ++ n :: post) ts ns ->
+  concatDimsOk (map Z.of_nat (pre ++ n0 :: post)) dim (map zdims ts) = true.
+Proof.
+  intros Hd ts ns H. induction H as [|t n ts ns Ht _ IH]; [reflexivity|].
+  cbn [map]. rewrite concatDimsOk_unfold, IH, Ht, offOk_app by (cbn; lia).
+  rewrite !app_length. cbn [length]. rewrite Nat.eqb_refl.
+  replace (length pre + S (length post) =? 0) with false by (symmetry; apply Nat.eqb_neq; lia).
+  replace (0 <=? dim)%Z with true by (symmetry; apply Z.leb_le; lia).
+  replace (dim <? Z.of_nat (length pre + S (length post)))%Z with true by (symmetry; apply Z.ltb_lt; lia).
+  reflexivity.
+Qed.
+
+Lemma concatDimsOk_sound (base : list nat) dim : forall ts : list T,
+  concatDimsOk (map Z.of_nat base) dim (map zdims ts) = true ->
+  Forall2 (fun t n => dims t = firstn (Z.to_nat dim) base ++ n :: skipn (S (Z.to_nat dim)) base)
+          ts (map (fun t => nth (Z.to_nat dim) (dims t) 0) ts)
+  /\ (ts <> [] -> (0 <= dim < Z.of_nat (length base))%Z).
+Proof.
+  induction ts as [|t ts IH]; intros H; [split; [constructor|congruence]|].
+  cbn [map] in H. rewrite concatDimsOk_unfold in H.
+  apply andb_true_iff in H as [H H5]. apply andb_true_iff in H as [H H4].
+  apply andb_true_iff in H as [H H3]. apply andb_true_iff in H as [H1 H2].
+  apply andb_true_iff in H3 as [H3a H3b]. apply Z.leb_le in H3a. apply Z.ltb_lt in H3b.
+  apply Nat.eqb_eq in H2. destruct (IH H5) as [IH1 _].
+  split; [|intros _; lia]. cbn [map]. constructor; [|exact IH1].
+  apply (offOk_inv dim (Z.to_nat dim) (dims t) base 0); [exact H2|lia|lia|exact H4].
+Qed.
+
+Theorem validateConcat_iff (ts : list T) dim : ts <> [] ->
+  (validateConcatTensorsDimsAlongDim (map zdims ts) dim = Some true <-> concatPre ts dim) /\
+  (validateConcatTensorsDimsAlongDim (map zdims ts) dim <> None).
+Proof.
+  intros Hne. destruct ts as [|t0 ts]; [congruence|]. cbn [map validateConcatTensorsDimsAlongDim].
+  split; [|discriminate]. split.
+  - intros H. inversion H as [H']. unfold zdims at 1 in H'.
+    destruct (concatDimsOk_sound (dims t0) dim (t0 :: ts) H') as [H1 H2].
+    specialize (H2 ltac:(discriminate)).
+    exists (firstn (Z.to_nat dim) (dims t0)), (skipn (S (Z.to_nat dim)) (dims t0)), (map (fun t => nth (Z.to_nat dim) (dims t) 0) (t0 :: ts)).
+    split; [|exact H1]. rewrite firstn_length. lia.
+  - intros (pre & post & ns & Hd & H). f_equal.
+    inversion H as [|t n ts' ns' Ht Hr]; subst. unfold zdims at 1. rewrite Ht.
+    apply (concatDimsOk_complete pre post n (Z.of_nat (length pre)) eq_refl (t0 :: ts) (n :: ns')). exact H.
+Qed.
+
+Theorem v_concat_spec (ts : list T) (dim : Z) : Forall wf ts ->
+  (length ts < 2 -> v_concat ts dim = Err) /\
+  (2 <= length ts ->
+     (concatPre ts dim ->
+        exists r, v_concat ts dim = Ok r /\ concatD ts (Z.to_nat dim) = Some r /\
+                  getConcatDims ts (Z.to_nat dim) = Some (dims r) /\ wf r) /\
+     (~ concatPre ts dim -> v_concat ts dim = Err)).
+Proof.
+  intros Hw. unfold v_concat. split.
+  - intros Hl. replace (length ts <? 2) with true by (symmetry; apply Nat.ltb_lt; exact Hl). reflexivity.
+  - intros Hl. replace (length ts <? 2) with false by (symmetry; apply Nat.ltb_ge; exact Hl).
+    assert (Hne : ts <> []) by (intros ->; cbn in Hl; lia).
+    destruct (validateConcat_iff ts dim Hne) as [Hiff Hnn]. split.
+    + intros Hpre. rewrite (proj2 Hiff Hpre). destruct Hpre as (pre & post & ns & Hd & H).
+      assert (H' : Forall2 (fun t n => wf t /\ dims t = pre ++ n :: post) ts ns).
+      { clear Hl Hne Hiff Hnn. induction H as [|t n ts ns Ht _ IH]; [constructor|].
+        inversion Hw; subst. constructor; [split; assumption|apply IH; assumption]. }
+      destruct (concat_spec pre post ts ns Hne H') as (r & H1 & H2 & _ & H4 & _).
+      subst dim. rewrite Nat2Z.id. exists r. rewrite H1. auto.
+    + intros Hn. destruct (validateConcatTensorsDimsAlongDim (map zdims ts) dim) as [[|]|] eqn:E.
+      * exfalso. apply Hn, Hiff. reflexivity.
+      * reflexivity.
+      * congruence.
+Qed.
+
+Corollary v_concat_never_panics (ts : list T) (dim : Z) : Forall wf ts -> v_concat ts dim <> Panic.
+Proof.
+  intros Hw. unfold v_concat. destruct (length ts <? 2) eqn:El; [discriminate|].
+  apply Nat.ltb_ge in El. assert (Hne : ts <> []) by (intros ->; cbn in El; lia).
+  destruct (validateConcat_iff ts dim Hne) as [Hiff Hnn].
+  destruct (validateConcatTensorsDimsAlongDim (map zdims ts) dim) as [[|]|] eqn:E; [|discriminate|congruence].
+  destruct (v_concat_spec ts dim Hw) as [_ H]. destruct (H El) as [H1 _].
+  destruct (H1 (proj1 Hiff eq_refl)) as (r & _ & -> & _). discriminate.
+Qed.
+
+End ApiConcat.
+
+(* [concatPre] in elementary terms: same rank, 0 <= dim < rank, entries agree off [dim] *)
+Lemma list_split_nth : forall d (l l' : list nat), length l = length l' -> d < length l ->
+  (forall i, i <> d -> nth i l 0 = nth i l' 0) ->
+  l = firstn d l' ++ nth d l 0 :: skipn (S d) l'.
+Proof.
+  induction d as [|d IH]; intros [|a l] [|b l'] Hl Hd H; cbn in Hl, Hd; try lia.
+  - cbn [firstn nth skipn app]. f_equal. apply (nth_ext _ _ 0 0); [lia|].
+    intros i _. apply (H (S i)). lia.
+  - cbn [firstn nth skipn app]. f_equal; [apply (H 0); lia|].
+    apply IH; [lia|lia|]. intros i Hi. apply (H (S i)). lia.
+Qed.
+
+Lemma nth_app_off (pre post : list nat) n m i : i <> length pre ->
+  nth i (pre ++ n :: post) 0 = nth i (pre ++ m :: post) 0.
+Proof.
+  intros Hi. destruct (Nat.lt_ge_cases i (length pre)) as [Hlt|Hge].
+  - rewrite !app_nth1 by exact Hlt. reflexivity.
+  - rewrite !app_nth2 by exact Hge. destruct (i - length pre) as [|k] eqn:E; [lia|reflexivity].
+Qed.
+
+Theorem concatPre_iff {A} (ts : list (tensor A)) (dim : Z) : ts <> [] ->
+  concatPre ts dim <->
+  (0 <= dim)%Z /\
+  forall t u, In t ts -> In u ts ->
+    length (dims t) = length (dims u) /\ (dim < Z.of_nat (length (dims t)))%Z /\
+    forall i, i <> Z.to_nat dim -> nth i (dims t) 0 = nth i (dims u) 0.
+Proof.
+  intros Hne. split.
+  - intros (pre & post & ns & Hd & H). split; [lia|]. intros t u Ht Hu.
+    destruct (Forall2_In_l _ _ _ _ H Ht) as (n & _ & En).
+    destruct (Forall2_In_l _ _ _ _ H Hu) as (m & _ & Em).
+    rewrite En, Em, !app_length. cbn [length]. split; [reflexivity|]. split; [lia|].
+    intros i Hi. apply nth_app_off. subst dim. rewrite Nat2Z.id in Hi. exact Hi.
+  - intros [H0 H]. destruct ts as [|t0 ts]; [congruence|].
+    set (d := Z.to_nat dim).
+    exists (firstn d (dims t0)), (skipn (S d) (dims t0)), (map (fun t => nth d (dims t) 0) (t0 :: ts)).
+    destruct (H t0 t0 (or_introl eq_refl) (or_introl eq_refl)) as (_ & Hlt & _).
+    split; [rewrite firstn_length; unfold d; lia|].
+    assert (G : forall l : list (tensor A), (forall t, In t l -> In t (t0 :: ts)) ->
+              Forall2 (fun t n => dims t = firstn d (dims t0) ++ n :: skipn (S d) (dims t0))
+                      l (map (fun t => nth d (dims t) 0) l)).
+    { induction l as [|t l IHl]; intros Hin; cbn [map]; constructor.
+      - destruct (H t t0 (Hin t (or_introl eq_refl)) (or_introl eq_refl)) as (Hl & Hlt' & Hnth).
+        apply list_split_nth; [exact Hl|unfold d; lia|exact Hnth].
+      - apply IHl. intros u Hu. apply Hin. right. exact Hu. }
+    apply G. auto.
+Qed.
+
+(* ====================================================================== *)
+(* 3. slicing a piece back out of the concatenation                       *)
+(* ====================================================================== *)
+Fixpoint shiftI (idx : list nat) (index : list range) : list nat :=
+  match idx, index with
+  | i :: idx', (f, _) :: index' => (i + f) :: shiftI idx' index'
+  | _, _ => []
+  end.
+
+Lemma shiftI_full ds : forall idx, length idx = length ds -> shiftI idx (map (fun d => (0, d)) ds) = idx.
+Proof.
+  induction ds as [|d ds IH]; intros [|i idx] H; cbn in H; try lia; [reflexivity|].
+  cbn [map shiftI]. rewrite IH by lia. f_equal. lia.
+Qed.
+
+Lemma shiftI_app i1 : forall index1 i2 index2, length i1 = length index1 ->
+  shiftI (i1 ++ i2) (index1 ++ index2) = shiftI i1 index1 ++ shiftI i2 index2.
+Proof.
+  induction i1 as [|i i1 IH]; intros [|[f t] index1] i2 index2 H; cbn in H; try lia; [reflexivity|].
+  cbn [app shiftI]. rewrite IH by lia. reflexivity.
+Qed.
+
+Lemma list_sum_firstn_le : forall ns j, j < length ns -> list_sum (firstn j ns) + nth j ns 0 <= list_sum ns.
+Proof.
+  induction ns as [|n ns IH]; intros j Hj; cbn in Hj; [lia|].
+  destruct j as [|j]; cbn [firstn nth list_sum fold_right]; [lia|].
+  fold (list_sum (firstn j ns)). fold (list_sum ns). specialize (IH j ltac:(lia)). lia.
+Qed.
+
+Lemma list_sum_firstn_S : forall ns j, j < length ns ->
+  list_sum (firstn (S j) ns) = list_sum (firstn j ns) + nth j ns 0.
+Proof.
+  induction ns as [|n ns IH]; intros j Hj; cbn in Hj; [lia|].
+  destruct j as [|j]; [cbn; lia|].
+  cbn [firstn nth list_sum fold_right] in *. fold (list_sum (firstn j ns)).
+  specialize (IH j ltac:(lia)). cbn [firstn] in IH. unfold list_sum in *. lia.
+Qed.
+
+Section SliceConcat.
+Context {A : Type}.
+Notation T := (tensor A).
+
+(* copying a block: element idx of the copy is element idx + From of the source *)
+Lemma sliceData_shift : forall (index : list range) (ds : list nat) (x : nd A),
+  wfnd ds x -> Forall2 (fun (r : range) d => fst r <= snd r /\ snd r <= d) index ds ->
+  exists y, sliceData index x = Some y /\
+    wfnd (map (fun r : range => snd r - fst r) index) y /\
+    forall idx, validIdx (map (fun r : range => snd r - fst r) index) idx ->
+      get y idx = get x (shiftI idx index).
+Proof.
+  induction index as [|[f t] index IH]; intros ds x Hx Hr.
+  - inversion Hr; subst. apply wfnd_nil in Hx as (a & ->). exists (Sc a).
+    split; [reflexivity|]. split; [exact I|]. intros idx Hv. apply validIdx_nil in Hv; subst. reflexivity.
+  - inversion Hr as [|r d index' ds' [Hft Htd] Hr']; subst. cbn [fst snd] in Hft, Htd.
+    apply wfnd_cons in Hx as (l & -> & Hl & Hf). cbn [sliceData asV obind].
+    set (fi := fun i => do r <- nth_error l (i + f); sliceData index r).
+    set (g := fun i => match fi i with Some y => y | None => Vec [] end).
+    assert (Hg : forall i, i < t - f -> exists r, nth_error l (i + f) = Some r /\ fi i = Some (g i) /\
+                 wfnd (map (fun r : range => snd r - fst r) index) (g i) /\
+                 forall idx, validIdx (map (fun r : range => snd r - fst r) index) idx ->
+                   get (g i) idx = get r (shiftI idx index)).
+    { intros i Hi. destruct (nth_error l (i + f)) as [r|] eqn:E; [|apply nth_error_None in E; lia].
+      assert (Hwr : wfnd ds' r) by (rewrite Forall_forall in Hf; apply Hf; eapply nth_error_In; eauto).
+      destruct (IH ds' r Hwr Hr') as (y & Hy & Hwy & Hey).
+      exists r. unfold g, fi. rewrite E. cbn [obind]. rewrite Hy. auto. }
+    rewrite (mapM_seq_some fi g) by (intros i Hi; destruct (Hg i Hi) as (r & _ & H2 & _); exact H2).
+    cbn [obind]. eexists; split; [reflexivity|]. cbn [map fst snd]. split.
+    + split; [rewrite map_length, seq_length; reflexivity|].
+      apply Forall_forall. intros y Hy. apply in_map_iff in Hy as (i & <- & Hi). apply in_seq in Hi.
+      destruct (Hg i ltac:(lia)) as (r & _ & _ & H3 & _). exact H3.
+    + intros idx Hv. apply validIdx_cons in Hv as (i & idx' & -> & Hi & Hv').
+      rewrite get_cons, nth_error_map.
+      rewrite (nth_error_nth' (seq 0 (t - f)) 0) by (rewrite seq_length; exact Hi).
+      rewrite seq_nth by exact Hi. cbn [option_map Nat.add shiftI].
+      destruct (Hg i Hi) as (r & H1 & _ & _ & H4). rewrite (H4 idx' Hv'), get_cons, H1. reflexivity.
+Qed.
+
+Lemma completeIndex_pre (pre : list nat) rest ds2 :
+  completeIndex (repeat (0, 0) (length pre) ++ rest) (pre ++ ds2)
+  = map (fun d => (0, d)) pre ++ completeIndex rest ds2.
+Proof. induction pre as [|d pre IH]; [reflexivity|]. cbn [length repeat app completeIndex map]. rewrite IH. reflexivity. Qed.
+
+Theorem slice_concat (pre post : list nat) (ts : list T) (ns : list nat) j t :
+  ts <> [] ->
+  Forall2 (fun t n => wf t /\ dims t = pre ++ n :: post) ts ns ->
+  nth_error ts j = Some t ->
+  exists r, concatD ts (length pre) = Some r /\
+    slice r (repeat (0, 0) (length pre)
+             ++ [(list_sum (firstn j ns), list_sum (firstn j ns) + nth j ns 0)]) = Some t.
+Proof.
+  intros Hne H Hj.
+  destruct (concat_spec pre post ts ns Hne H) as (r & Hr & _ & Hdr & [Hwr Hposr] & He).
+  exists r. split; [exact Hr|].
+  destruct (Forall2_nth_l _ 0 _ _ H j t Hj) as [[[Hwt Hpost] Hdt] Hjl].
+  set (off := list_sum (firstn j ns)) in *. set (n := nth j ns 0) in *.
+  assert (Hn : 0 < n).
+  { rewrite Hdt in Hpost. apply Forall_app in Hpost as [_ Hp]. inversion Hp; assumption. }
+  unfold slice. rewrite Hdr, completeIndex_pre. cbn [completeIndex].
+  replace ((off =? 0) && (off + n =? 0)) with false
+    by (symmetry; apply andb_false_iff; right; apply Nat.eqb_neq; lia).
+  rewrite completeIndex_nil.
+  set (index := map (fun d => (0, d)) pre ++ (off, off + n) :: map (fun d => (0, d)) post).
+  assert (Hsizes : map (fun r : range => snd r - fst r) index = dims t).
+  { unfold index. rewrite map_app. cbn [map fst snd]. rewrite !map_map. cbn [fst snd]. rewrite Hdt.
+    f_equal; [|f_equal].
+    - rewrite <- (map_id pre) at 2. apply map_ext. intros d. lia.
+    - lia.
+    - rewrite <- (map_id post) at 2. apply map_ext. intros d. lia. }
+  assert (Hrng : Forall2 (fun (r : range) d => fst r <= snd r /\ snd r <= d) index (pre ++ list_sum ns :: post)).
+  { unfold index. apply Forall2_app; [|constructor].
+    - clear. induction pre as [|d pre IH]; cbn [map]; constructor; [cbn; lia|exact IH].
+    - cbn [fst snd]. pose proof (list_sum_firstn_le ns j Hjl). fold off n in H0. lia.
+    - clear. induction post as [|d post IH]; cbn [map]; constructor; [cbn; lia|exact IH]. }
+  rewrite Hdr in Hwr.
+  destruct (sliceData_shift index _ (data r) Hwr Hrng) as (y & Hy & Hwy & Hey).
+  unfold copiedSliceOf. rewrite Hy. cbn [obind].
+  assert (Edata : y = data t).
+  { apply (nd_ext A (dims t)); [rewrite <- Hsizes; exact Hwy|exact Hwt|].
+    intros idx Hv. rewrite Hey by (rewrite Hsizes; exact Hv).
+    rewrite Hdt in Hv. apply Forall2_app_inv_r in Hv as (i1 & i2' & Hi1 & Hi2' & ->).
+    inversion Hi2' as [|x ? i2 ? Hx Hi2]; subst.
+    unfold index. rewrite shiftI_app by (rewrite map_length; apply (validIdx_length _ _ Hi1)).
+    rewrite shiftI_full by (apply (validIdx_length _ _ Hi1)).
+    cbn [shiftI]. rewrite shiftI_full by (apply (validIdx_length _ _ Hi2)).
+    rewrite (Nat.add_comm x off). apply (He j t i1 x i2 Hj Hi1 Hx Hi2). }
+  rewrite Edata. destruct t as [dt xt]. cbn [dims data] in Hsizes |- *. do 2 f_equal. exact Hsizes.
+Qed.
+
+End SliceConcat.
+
+(* ====================================================================== *)
+(* non-vacuity                                                            *)
+(* ====================================================================== *)
+Module Ex.
+Definition ta : tensor nat := mkT [2; 1; 2] (Vec [Vec [Vec [Sc 1; Sc 2]]; Vec [Vec [Sc 3; Sc 4]]]).
+Definition tb : tensor nat := mkT [2; 2; 2] (Vec [Vec [Vec [Sc 5; Sc 6]; Vec [Sc 7; Sc 8]];
+                                                  Vec [Vec [Sc 9; Sc 10]; Vec [Sc 11; Sc 12]]]).
+Example ta_wf : wf ta. Proof. split; [apply wfndb_spec; reflexivity|repeat constructor]. Qed.
+Example tb_wf : wf tb. Proof. split; [apply wfndb_spec; reflexivity|repeat constructor]. Qed.
+
+Example ex_hyp : Forall2 (fun t n => wf t /\ dims t = [2] ++ n :: [2]) [ta; tb; ta] [1; 2; 1].
+Proof. repeat constructor; try (apply wfndb_spec; reflexivity). Qed.
+
+Example ex_concat :
+  concatD [ta; tb; ta] 1
+  = Some (mkT [2; 4; 2]
+       (Vec [Vec [Vec [Sc 1; Sc 2]; Vec [Sc 5; Sc 6]; Vec [Sc 7; Sc 8]; Vec [Sc 1; Sc 2]];
+             Vec [Vec [Sc 3; Sc 4]; Vec [Sc 9; Sc 10]; Vec [Sc 11; Sc 12]; Vec [Sc 3; Sc 4]]])) /\
+  getConcatDims [ta; tb; ta] 1 = Some [2; 4; 2] /\
+  v_concat [ta; tb; ta] 1 = of_opt (concatD [ta; tb; ta] 1) /\
+  v_concat [ta] 1 = Err /\ v_concat [ta; tb] 0 = Err /\ v_concat [ta; tb] 3 = Err /\
+  v_concat [ta; tb] (-1) = Err /\
+  v_concat [ta; tb] 1 <> Err.
+Proof. vm_compute. repeat split. discriminate. Qed.
+
+Example ex_pre : concatPre [ta; tb; ta] 1.
+Proof. exists [2], [2], [1; 2; 1]. split; [reflexivity|repeat constructor]. Qed.
+
+(* the theorems instantiated *)
+Example ex_slice_concat :
+  exists r, concatD [ta; tb; ta] 1 = Some r /\ slice r [(0, 0); (1, 3)] = Some tb.
+Proof. apply (slice_concat [2] [2] [ta; tb; ta] [1; 2; 1] 1 tb ltac:(discriminate) ex_hyp eq_refl). Qed.
+
+Example ex_elem :
+  exists r, concatD [ta; tb; ta] 1 = Some r /\ get (data r) [1; 2; 0] = Some 11.
+Proof.
+  destruct (concat_spec [2] [2] [ta; tb; ta] [1; 2; 1] ltac:(discriminate) ex_hyp) as (r & Hr & _ & _ & _ & He).
+  exists r. split; [exact Hr|].
+  apply (He 1 tb [1] 1 [0] eq_refl); repeat constructor.
+Qed.
+End Ex.
+
+Print Assumptions fillCat_spec.
+Print Assumptions concat_spec.
+Print Assumptions validateConcat_iff.
+Print Assumptions concatPre_iff.
+Print Assumptions v_concat_spec.
+Print Assumptions v_concat_never_panics.
+Print Assumptions slice_concat.
